@@ -228,6 +228,66 @@ func (g *gateX) ifConds(list []ast.Stmt) []string {
 	return out
 }
 
+// stepOrder renders the top-level statements of a function: `if <cond> → return` for a guard whose body
+// ends in a return, `if <cond> → <calls>` otherwise, `<lhs> := <rhs>` for assignments from calls, the
+// callee for expression statements (with a marker when its function-literal argument writes the state).
+func (g *gateX) stepOrder(fd *ast.FuncDecl) []string {
+	if fd == nil {
+		g.errf("stepOrder: function not found")
+		return nil
+	}
+	c := g.c
+	writes := func(n ast.Node) string {
+		var w []string
+		ast.Inspect(n, func(x ast.Node) bool {
+			if as, ok := x.(*ast.AssignStmt); ok {
+				for _, l := range as.Lhs {
+					if src := c.Src(l); strings.HasPrefix(src, "state.") {
+						w = append(w, src)
+					}
+				}
+			}
+			return true
+		})
+		if len(w) == 0 {
+			return ""
+		}
+		return " writes " + strings.Join(w, ",")
+	}
+	var out []string
+	for _, st := range fd.Body.List {
+		switch x := st.(type) {
+		case *ast.IfStmt:
+			cond := c.Src(x.Cond)
+			if x.Init != nil {
+				cond = c.Src(x.Init) + "; " + cond
+			}
+			body := "…"
+			if n := len(x.Body.List); n > 0 {
+				if _, ok := x.Body.List[n-1].(*ast.ReturnStmt); ok {
+					body = "return"
+				}
+			}
+			out = append(out, "if "+cond+" → "+body+writes(x.Body))
+		case *ast.AssignStmt:
+			if len(x.Rhs) == 1 {
+				if _, ok := x.Rhs[0].(*ast.CallExpr); ok {
+					out = append(out, c.Src(x.Lhs[0])+" := "+c.Src(x.Rhs[0]))
+				} else {
+					out = append(out, "assign "+c.Src(x.Lhs[0]))
+				}
+			}
+		case *ast.ExprStmt:
+			if ce, ok := x.X.(*ast.CallExpr); ok {
+				out = append(out, "call "+c.Src(ce.Fun)+writes(ce))
+			}
+		case *ast.ReturnStmt:
+			out = append(out, "return")
+		}
+	}
+	return out
+}
+
 func (g *gateX) run() {
 	c := g.c
 	server := g.table("serverMethodInfos", "newServerMethodInfo")
@@ -415,6 +475,11 @@ func (g *gateX) run() {
 			g.errf("ServerSession.%s not found", fn)
 		}
 	}
+	// initialize / discover: the order of the top-level steps. The session state may be written only after
+	// the last way to fail that does not depend on the state (initialize: params, then the transport's
+	// versions, THEN the locked duplicate-check-and-write); discover persists under the transport condition.
+	c.Fact("gate.initialize_order", g.stepOrder(c.Func("mcp", "ServerSession", "initialize")))
+	c.Fact("gate.discover_order", g.stepOrder(c.Func("mcp", "Server", "discover")))
 	// preempter: when does it look at the request
 	preemptCond := ""
 	var preemptErrs []string
